@@ -29,6 +29,10 @@ CLAIMED["C03"] = dict(level="exploration", ref="DESIGN.md section 4 C03",
    text="Seeded operation histories (depth <= 12, coverage-steered over all ordered pairs (quick) / triples (thorough) of the 12 operation kinds) over Dataset and its 2d/3d/4d/4dstem subclasses: construction, copy, setters (valid and rejected), pad/crop/bin/fourier_resample executed both as copying variant on the working dataset and as in-place variant on a copy (results compared, source compared with its snapshot), indexing with NumPy itself as the specification, re-binding to results so dimensionality changes flow on; invariants (calibration lengths, class vs dimensionality, registry) after every step.",
    note="Trusts NumPy indexing as the specification and the snapshot/differential oracles in qsim/props/c03.py. Index expressions that make NumPy move the broadcast axis (list separated from an integer by a slice) and empty axes are not generated (assumptions in evidence). Numerical correctness of the four operations is C06 and not claimed.",
    technique="deterministic history simulation: seeded, coverage-steered operation sequences incl. rejected operations; NumPy-as-specification and in-place-vs-copy differential oracles; ddmin-minimised replays")
+CLAIMED["C09"] = dict(level="exploration", ref="DESIGN.md section 4 C09",
+   text="The library's own seeded scheduler is the object under test. (A) SimpleBatcher driven by simulator-answered permutations (identity/reverse/rotation/riffle/last-block-first/PRNG) over n, batch size, validation ratio/mode and epochs: exact partition per epoch, len == batches yielded, disjoint covering split, stable split, contiguous tilings of generate_batches. (B) per-batch losses and gradients tapped through the real reconstruct() loop at fixed parameters for every divisor batch size: mean equals full batch. (C) seeded determinism checked as replay: two instances / reset-and-rerun give identical batch sequences and loss histories, another seed gives another schedule; the batches seen by the forward model form an exact partition. Sampling over configurations.",
+   note="Trusts the tiny simulated ptychography problem (qsim/tinyptycho.py) as a representative instance; float32 tolerance 1e-4 (HEAD deviates <= 3e-7); autograd path and l1/l2 losses only; the optimizer update is skipped in (B) by overriding the public step_optimizers method.",
+   technique="deterministic schedule simulation: simulator-owned permutation answers and batch-size knob, invariants per epoch, batch-invariance and seeded-replay oracles through the real reconstruction loop")
 NA = {
  "C02": "single evaluation of a deterministic forward model at a known ground truth; no schedule, state, fault or persistence in the claim - a simulator would only be an input generator",
  "C06": "conservation laws of bin/fourier_resample/pad/crop as pure array->array maps (the operation-history aspect of the same methods is claimed under C03)",
@@ -41,7 +45,7 @@ NA = {
  "C17": "unwrapping is a deterministic function of field and mask; its merge order is fixed by the input, not by a scheduler",
  "C20": "range/monotonicity/inverse identities of stateless maps",
 }
-PENDING = {k: "claimed in DESIGN.md (section 4); its check is still under construction in this build session and therefore not yet registered" for k in ["C04","C05","C09","C18"]}
+PENDING = {k: "claimed in DESIGN.md (section 4); its check is still under construction in this build session and therefore not yet registered" for k in ["C04","C05","C18"]}
 
 def main():
     checks = []
